@@ -225,7 +225,8 @@ def c17_h9(ctx):
 
 
 VERDICT_IGNORED_OK = {
-    "check_file_size": "the caller re-tests recv_state / state right after the call (it never continues on the verdict)",
+    # by the fault declared, not by the function it is declared in (the size check may be inlined into the EOF arms)
+    "FilesizeError": "the EOF arms re-test recv_state / state right after the size check (they never continue on the verdict)",
 }
 
 
@@ -245,6 +246,9 @@ def c17_h10(ctx):
             base = "RecvTransaction::%s:handle_fault-verdict" % f.name
             cnt[base] = cnt.get(base, 0) + 1
             key = base + ("#%d" % cnt[base] if cnt[base] > 1 else "")
+            ce = ExprBuilder(ctx.prog, f).call(b, t)
+            carg = ce[3][1] if ce[0] == "call" and len(ce[3]) > 1 else None
+            cond_name = carg[3] if carg is not None and carg[0] == "agg" else None
             # follow the Result through `?` to the bool and see whether it reaches a switch or the return value
             seen = set()
             work = [t["dest"]["local"]] if not t["dest"]["proj"] else [0]
@@ -277,8 +281,8 @@ def c17_h10(ctx):
                             used = True
             if used:
                 yield ok("C17-H10", key, at(f, t["span"]["line"]), "verdict branched on / handed on")
-            elif f.name in VERDICT_IGNORED_OK:
-                yield ok("C17-H10", key, at(f, t["span"]["line"]), "verdict dropped: " + VERDICT_IGNORED_OK[f.name])
+            elif cond_name in VERDICT_IGNORED_OK:
+                yield ok("C17-H10", key, at(f, t["span"]["line"]), "verdict dropped: " + VERDICT_IGNORED_OK[cond_name])
             else:
                 yield bad("C17-H10", key, at(f, t["span"]["line"]), "%s drops the fault handler's verdict and carries on whatever action was taken: what follows (delivery, filestore requests, further PDUs) runs for a transaction that was just cancelled, suspended or abandoned" % f.name)
     if n == 0:
